@@ -10,7 +10,7 @@ Driver for the Quorum model (C33).  Requests (one per line):
   spec   <obs>;<obs>;…      -> ok | viol <k>               (S on *given* observations)
 
   cfg := c(,c)* | -     c := a<id><v|l>  (ClusterConfig::add_node)  |  p<id><v|l> (raw push)
-  ops := op(;op)* | _   op := A<id><v|l> | R<id> | +<id> | -<id> | L<id><L|F|C|N>
+  ops := op(;op)* | _   op := A<id><v|l> | B<id><v|l> | R<id> | +<id> | -<id> | L<id><L|F|C|N>
                               | U<id><v|l>(.<id><v|l>)* | U-
   obs := <nodes>|<active>|<roles>|<healthy>.<total_nodes>.<active_nodes>.<total_voters>.<active_voters>.<has_leader>|<ok>
   nodes := <id><v|l>(,…)* | -    active := <id>(,<id>)* | -    roles := 7 chars of _ L F C N
@@ -49,6 +49,8 @@ def parseCfg? (s : String) : Option (List (Bool × NodeCfg)) :=
 def parseOp? (s : String) : Option Op :=
   match s.toList with
   | 'A' :: rest => (parseNode? (String.ofList rest)).map (fun n => .add n.id n.voter)
+  -- `B` = add_node announcing a different address; addresses are not part of the model
+  | 'B' :: rest => (parseNode? (String.ofList rest)).map (fun n => .add n.id n.voter)
   | 'R' :: rest => (String.ofList rest).toNat?.map .remove
   | '+' :: rest => (String.ofList rest).toNat?.map .markActive
   | '-' :: rest => (String.ofList rest).toNat?.map .markInactive
